@@ -28,6 +28,45 @@ func runC04(c *Ctx) {
 	c04R5(c)
 	c04R6(c)
 	c04R7(c)
+	c01R7As(c, c.R.Rule("R8", "K3 (= C01.R7) v2 split runs are released in place: runAckNacker.vote hands a completed run to the parent at the point of the walk where it completes (behind the run-complete edge, marked released first), dispatched by its sticky nacked flag", 3))
+	c04R9(c)
+}
+
+// c04R9: Source.Ack retains the slice it is given until the persister flush; every call hands it a slice of
+// its own.
+func c04R9(c *Ctx) {
+	r := c.R.Rule("R9", "K6 no shared position buffer: the positions slice the v1 source acker hands to Source.Ack is allocated for that call (connector.Source keeps it queued until the flush; a buffer reused across acks makes every queued ack carry the last position)", 2)
+	reg := []string{"(*SourceAckerNode).registerAckHandler", "(*SourceAckerNode).registerNackHandler"}
+	srcAck := c.Fam(c.Fn(r, pConn, "(*Source).Ack"))
+	n := 0
+	for _, name := range reg {
+		fn := c.SSA(r, pStream, name)
+		if fn == nil {
+			continue
+		}
+		for _, f := range kit.WithAnon(fn) {
+			for _, via := range kit.CallsVia(f, srcAck, 1) {
+				n++
+				if len(via.Args) < 2 || via.Args[len(via.Args)-1] == nil {
+					c.R.Undecided(r, name+": positions handed to Source.Ack", c.Pos(via.Site.Pos()), "cannot resolve the positions argument")
+					continue
+				}
+				arg := kit.Unwrap(via.Args[len(via.Args)-1])
+				fresh := false
+				switch x := arg.(type) {
+				case *ssa.Slice:
+					_, isAlloc := x.X.(*ssa.Alloc)
+					fresh = isAlloc && !liveRoot(x.X, 0)
+				case *ssa.MakeSlice:
+					fresh = true
+				}
+				c.R.Check(fresh, r, name+": a fresh positions slice per Source.Ack", c.Pos(via.Site.Pos()), "slice literal / make", "the slice handed to Source.Ack is not allocated for this call (a buffer of the node or another shared slice): Source.Ack keeps it queued until the flush, so queued acks are overwritten by later ones — the plugin sees repeats and gaps", true)
+			}
+		}
+	}
+	if n == 0 {
+		c.R.Fail(r, "v1 source acker: Source.Ack calls", "", "no Source.Ack call found in the ack/nack handlers")
+	}
 }
 
 // c04R7: a deferred ack is given up only when the stream is gone, the retries are exhausted or the
